@@ -120,7 +120,7 @@ theorem C13_cancelled_task_ends_silently (c : Ctx) (s : St) (tk : Task) (rv : Re
       · simp only [nodeFinally]
         split
         · simp
-        · split <;> simp
+        · simp
   have hget : ∃ tk', (unwindFrames c.P s tk.frames).tasks[c.t]? = some tk' := by
     have : c.t < (unwindFrames c.P s tk.frames).tasks.length := by rw [hlen]; exact getElem?_lt h
     exact ⟨_, List.getElem?_eq_getElem this⟩
@@ -150,9 +150,7 @@ theorem C13_marks_are_stable (P : Program) (s : St) (fs : List Frame) (i : Nat) 
     · simp only [nodeFinally]
       split
       · rw [marked_notify, marked_setEvent]
-      · split
-        · rw [marked_notify, marked_notify, marked_notifyAll, marked_setEvent]
-        · rw [marked_notify, marked_notifyAll, marked_setEvent]
+      · rw [marked_notify, marked_notify, marked_notifyAll, marked_setEvent]
 
 /-! Non-vacuity: a blocked, unfinished task that `run()`'s cleanup reaches becomes runnable and marked. -/
 example :
@@ -229,7 +227,7 @@ theorem len_unwindFrames (P : Program) : ∀ (fs : List Frame) (s : St), (unwind
     · simp only [nodeFinally]
       split
       · simp
-      · split <;> simp
+      · simp
 
 theorem allMarked_cancelTasks {I : Nat → Prop} {s : St} (h : MarkedOn I s) (ts : List Nat) :
     MarkedOn I (cancelTasks s ts) := by
